@@ -724,7 +724,7 @@ pub fn c20(case_seed: u64, tier_variants: usize, acc: &mut Acc) {
         let c = corpus_case(&mut r);
         (pp::print(&c.program, &c.layout_opts).text, c.signals, c.script, c.rng_seed)
     };
-    let opts = RunOpts { max_steps: 300, probe_after_end: 0, stop_at_error: true, seed: Some(seed) };
+    let opts = RunOpts { max_steps: 300, probe_after_end: 0, stop_at_error: true, seed: Some(seed), continue_on: None };
     let b = run_text(&base, &sigs, &script, &opts);
     acc.evaluations += 1;
     if let Some(p) = no_panic(&b) {
